@@ -3,7 +3,37 @@
 //! Re-exports and thin wrappers that make crate-private components drivable by the external
 //! model-checking harness. No logic lives here.
 
-pub use crate::transport::manager::address::{scores, AddressRecord, AddressStore};
+pub use crate::{
+    crypto::noise::{handshake, HandshakeTransport, NoiseSocket, MAX_FRAME_LEN},
+    multistream_select::{
+        dialer_select_proto, listener_select_proto, webrtc_listener_negotiate, HandshakeResult,
+        HeaderLine, ListenerSelectResult, Message, Negotiated, NegotiationError, Protocol,
+        ProtocolError, Version, WebRtcDialerState,
+    },
+    transport::manager::address::{scores, AddressRecord, AddressStore},
+};
+
+use crate::{
+    codec::ProtocolCodec, substream::Substream, types::SubstreamId, BandwidthSink, PeerId,
+};
+
+/// A real TCP-flavoured [`Substream`] (what `TcpConnection` hands to protocols) over a yamux
+/// stream. No lifetime permit is attached.
+pub fn tcp_substream(
+    peer: PeerId,
+    substream_id: SubstreamId,
+    stream: crate::yamux::Stream,
+    codec: ProtocolCodec,
+) -> Substream {
+    use tokio_util::compat::FuturesAsyncReadCompatExt;
+
+    Substream::new_tcp(
+        peer,
+        substream_id,
+        crate::transport::tcp::Substream::new(stream.compat(), BandwidthSink::new(), None),
+        codec,
+    )
+}
 
 /// Offset clock standing in for `std::time::Instant::now()` in the few components that measure time with
 /// `std::time::Instant` (Kademlia store, `FindNodeContext`, `GetRecordContext`).
